@@ -23,7 +23,7 @@ THRESHOLDS = {
 }
 MIN_NONTRIVIAL = {"quick": 25, "thorough": 200}
 RULE = ("case = random coarse grid refined either by midpoints (what the library builds) or arbitrarily (fine nodes anywhere "
-        "between coarse neighbours), explicit or automatic split on either level, DirBC flag, threads; pairs with > 10 000 fine nodes "
+        "between coarse neighbours), explicit or automatic split on either level, DirBC flag, threads; in 40% the Interpolation object has first served another level pair (same nodes with other smoother splits, or another grid); pairs with > 10 000 fine nodes "
         "(parallel path, 1..16 threads) judged with random vectors, smaller ones by full matrix extraction with unit vectors of all "
         "nine operators; signature = (flavour, size class, fine split kind, coarse split auto?, fine circles mod 2, threads, angular "
         "kind, radial kind); non-trivial = every (i_r parity, i_theta parity) node class present in both sections of the fine grid")
